@@ -73,8 +73,7 @@ PROPS = {
     'C08': {'ties': ['tie_reserved', 'tie_maxParams', 'tie_tokenTypes', 'tie_keywords', 'tie_singleOps', 'tie_twoOps', 'tie_otherCases', 'tie_ladder'],
             'digests': pa(PARSER_LADDER + PARSER_STMT + PARSER_PRIM) + lx(LEXER_ALL) + ['mainDigests:run', 'utilsDigests:GlobalError', 'utilsDigests:GlobalErrorToken', 'utilsDigests:report'],
             'digest_groups': ['parserDigests', 'lexerDigests'], 'campaign': F.c08,
-            'partial': ['"the first diagnostic is at the first non-viable token": prefix determinism is by construction of the model; viability of the preceding prefix is checked by enumeration only',
-                        'soundness (accepted => rendering of the returned tree) and completeness (well-formed tree => accepted and returned) are proved separately; "every returned tree is well-formed" is proved for its ladder and dangling-else components only']},
+            'partial': ['"the first diagnostic is at the first non-viable token": prefix determinism is by construction of the model; viability of the preceding prefix is checked by enumeration only']},
     'C09': {'ties': ['tie_keywords', 'tie_singleOps', 'tie_twoOps', 'tie_blanks', 'tie_otherCases', 'tie_isAlpha', 'tie_tokenTypes', 'tie_digitRanges'],
             'digests': lx(LEXER_ALL) + ['utilsDigests:GlobalError', 'utilsDigests:report'], 'digest_groups': ['lexerDigests'], 'campaign': F.c09,
             'partial': ['unicode.IsLetter / IsMark are a parameter of the theorems; the driver uses the range tables extracted from the Go toolchain']},
